@@ -1,10 +1,40 @@
 """C11 — a restart changes nothing observable."""
 from m4check import run_property
+import m4
+
+SEC = m4.SEC
+
+
+def directed():
+    """Every kind of state a service can be saved in x every command that can follow the restart: the pair (history, history with a
+    restart just before the follow-up command) must be indistinguishable - in particular the restored proxy must REACT to the
+    follow-up as the original does (resume / stop of a restored paused service, rollout set on a restored service without rollout
+    targets, ...)."""
+    dep = lambda ts: {"op": "deploy", "name": b"web", "hosts": [b"a.example.com"], "prefixes": [], "tls": False, "tls_redirect": False,
+                      "strip": True, "cert": "none", "pages": "none", "topts": 0, "targets": [{"name": t, "healthy": True} for t in ts]}
+    rdep = lambda ts: {"op": "rollout_deploy", "name": b"web", "targets": [{"name": t, "healthy": True} for t in ts]}
+    rset = {"op": "rollout_set", "name": b"web", "pct": 0, "allow": [b"alice", b"carol"]}
+    pause = {"op": "pause", "name": b"web", "fail_after": SEC}
+    stop = {"op": "stop", "name": b"web", "msg": m4.MESSAGES[1 % len(m4.MESSAGES)]}
+    states = [[], [pause], [stop], [rdep([b"tc:8080"])], [rdep([b"tc:8080"]), rset], [rdep([b"tc:8080"]), rset, pause],
+              [rdep([b"tc:8080"]), rset, {"op": "rollout_stop", "name": b"web"}]]
+    follow = [[{"op": "resume", "name": b"web"}], [stop, {"op": "resume", "name": b"web"}], [pause, {"op": "resume", "name": b"web"}],
+              [rset], [{"op": "rollout_set", "name": b"web", "pct": 100, "allow": []}], [{"op": "rollout_stop", "name": b"web"}],
+              [rdep([b"td:8080"]), rset], [dep([b"tb:80"])], [{"op": "remove", "name": b"web"}, dep([b"tb:80"])]]
+    out = []
+    for st in states:
+        for fo in follow:
+            h = [dep([b"ta:80", b"tb:80"])] + st + fo
+            out.append((h, 1 + len(st)))
+    return out
 
 
 def run(tier, seed):
+    fx = directed()
+    if tier == "quick":      # a third of the directed pairs per quick run, chosen by the seed; all of them in the thorough tier
+        fx = [p for i, p in enumerate(fx) if i % 3 == seed % 3]
     return run_property(
         "C11", tier, seed, ["C11.v", "M4link.v"], ["props/C11.vo", "props/M4link.vo"],
         profile={"deploy": 8, "deploy_fail": 2, "remove": 1, "restart": 1, "flap": 3, "rollout_deploy": 5, "rollout_set": 6,
                  "rollout_stop": 1, "pause": 4, "stop": 4, "resume": 4, "rollout_template": True},
-        monitor="c11_ok h1 h2 k", n_quick=24, n_thorough=400, pair_restart=True, len_range=(3, 12))
+        monitor="c11_ok h1 h2 k", n_quick=24, n_thorough=400, pair_restart=True, len_range=(3, 12), fixed=fx)
